@@ -233,6 +233,11 @@ class SSHChannel(Generic[AnyStr], SSHPacketHandler):
         if self._session is not None:
             # pylint: disable=broad-except
             try:
+                if self._recv_eof_pending and not exc:
+                    # The close arrived before reading had started, so
+                    # the end of file before it wasn't reported yet
+                    self._session.eof_received()
+
                 self._session.connection_lost(exc)
             except Exception:
                 self.logger.debug1('Uncaught exception in session ignored',
@@ -240,6 +245,7 @@ class SSHChannel(Generic[AnyStr], SSHPacketHandler):
 
             self._session = None
 
+        self._recv_eof_pending = False
         self._close_event.set()
 
         if self._conn: # pragma: no branch
